@@ -328,3 +328,144 @@ func lemmaParsedPrintable(e *Expression) {}
 //@   props C01 C13
 //@   requires e != nil && LeafOp(e.Op)
 //@   fmtwhen  ShapeP(e)
+
+// ---- Expr: the one constructor everything else goes through ---------------------------------
+
+// NormLeft: the left operand as Expr stores it (column wrapping, literal lifting).
+func NormLeft(left any, op Operator) any {
+	if isStringlike(left) && operatesOnColumn(op) {
+		left = wrapInColumn(left)
+	}
+	if isLiteral(left) && !LeafOp(op) {
+		left = literalToExpr(left)
+	}
+	return left
+}
+
+// NormRight: the right operand in the general case.
+func NormRight(right []any) any {
+	if len(right) >= 1 && right[0] != nil {
+		if isLiteral(right[0]) {
+			return literalToExpr(right[0])
+		}
+		return right[0]
+	}
+	return nil
+}
+
+// NotNilExpr: a is not a typed-nil *Expression.
+func NotNilExpr(a any) bool {
+	e, ok := a.(*Expression)
+	return !ok || e != nil
+}
+
+// AllExprs: every element of l is an *Expression.
+func AllExprs(l []any) bool {
+	return verifspec.Forall(0, len(l), func(i int) bool { return IsExpr(l[i]) })
+}
+
+// ExprArgsOK: argument shapes for which Expr does not panic (derived from the
+// unchecked assertions and index expressions in its body; every call site in
+// the repository is checked against it).
+func ExprArgsOK(left any, op Operator, right []any) bool {
+	if !NotNilExpr(left) || (op == Equals && len(right) == 1 && !NotNilExpr(right[0])) {
+		return false
+	}
+	if op == Equals && len(right) == 1 && shouldUseLikeOperator(right[0]) {
+		return true
+	}
+	if op == Boost {
+		if len(right) == 1 && isFloat(right[0]) {
+			_, ok := right[0].(float64)
+			return ok
+		}
+		return true
+	}
+	if op == Fuzzy {
+		if len(right) == 1 && isInt(right[0]) {
+			_, ok := right[0].(int)
+			return ok
+		}
+		return true
+	}
+	if op == Range && len(right) == 3 && isBool(right[2]) {
+		return true
+	}
+	if op == In && len(right) > 0 {
+		return IsExpr(right[0])
+	}
+	if op == List {
+		la, ok := left.([]any)
+		if !ok || len(la) == 0 {
+			return false
+		}
+		if _, isSlice := la[0].([]*Expression); isSlice {
+			return true
+		}
+		return AllExprs(la)
+	}
+	return true
+}
+
+// SameExprs: two expression lists have the same elements.
+func SameExprs(a []*Expression, b []any) bool {
+	return len(a) == len(b) && verifspec.Forall(0, len(a), func(i int) bool {
+		e, ok := b[i].(*Expression)
+		return ok && a[i] == e
+	})
+}
+
+// ExprPost: the node Expr builds, case by case.
+func ExprPost(r *Expression, left any, op Operator, right []any) bool {
+	if r == nil {
+		return false
+	}
+	l := NormLeft(left, op)
+	if op == Equals && len(right) == 1 && shouldUseLikeOperator(right[0]) {
+		return r.Op == Like && r.Left == l && r.Right == right[0] && r.boostPower == 1.0 && r.fuzzyDistance == 1
+	}
+	if op == Boost {
+		if len(right) == 1 && isFloat(right[0]) {
+			p, _ := right[0].(float64)
+			return r.Op == Boost && r.Left == l && r.Right == nil && r.boostPower == p && r.fuzzyDistance == 1
+		}
+		return r.Op == Boost && r.Left == l && r.Right == nil && r.boostPower == 1.0 && r.fuzzyDistance == 1
+	}
+	if op == Fuzzy {
+		if len(right) == 1 && isInt(right[0]) {
+			d, _ := right[0].(int)
+			return r.Op == Fuzzy && r.Left == l && r.Right == nil && r.boostPower == 1.0 && r.fuzzyDistance == d
+		}
+		return r.Op == Fuzzy && r.Left == l && r.Right == nil && r.boostPower == 1.0 && r.fuzzyDistance == 1
+	}
+	if op == Range && len(right) == 3 && isBool(right[2]) {
+		b, ok := r.Right.(*RangeBoundary)
+		incl, _ := right[2].(bool)
+		return r.Op == Range && r.Left == l && ok && b != nil &&
+			b.Min == any(literalToExpr(right[0])) && b.Max == any(literalToExpr(right[1])) && b.Inclusive == incl &&
+			r.boostPower == 1.0 && r.fuzzyDistance == 1
+	}
+	if op == In && len(right) > 0 {
+		return r.Op == In && r.Left == l && r.Right == right[0] && r.boostPower == 1.0 && r.fuzzyDistance == 1
+	}
+	if op == List {
+		la, _ := left.([]any)
+		rl, ok := r.Left.([]*Expression)
+		if !ok || r.Op != List || r.Right != nil || len(la) == 0 {
+			return false
+		}
+		if s, isSlice := la[0].([]*Expression); isSlice {
+			return len(rl) == len(s) && verifspec.Forall(0, len(s), func(i int) bool { return rl[i] == s[i] })
+		}
+		return SameExprs(rl, la)
+	}
+	return r.Op == op && r.Left == l && r.Right == NormRight(right) && r.boostPower == 1.0 && r.fuzzyDistance == 1
+}
+
+//@ func Expr
+//@   props C01 C05 C06 C10 C11 C12 C13
+//@   functional
+//@   requires ExprArgsOK(left, op, right)
+//@   decreases 2*verifspec.B2I(!LeafOp(op)) + verifspec.B2I(len(right) > 0)
+//@   ensures  ExprPost(result, left, op, right)
+//@   loop 0: rangeinv len(vals) == idx && verifspec.Forall(0, idx, func(i int) bool { e, ok := l[i].(*Expression); return ok && vals[i] == e })
